@@ -29,6 +29,7 @@ import (
 
 	"github.com/bnb-chain/tss-lib/v2/crypto"
 	"github.com/bnb-chain/tss-lib/v2/crypto/mta"
+	eckg "github.com/bnb-chain/tss-lib/v2/ecdsa/keygen"
 	ecrs "github.com/bnb-chain/tss-lib/v2/ecdsa/resharing"
 	ecsig "github.com/bnb-chain/tss-lib/v2/ecdsa/signing"
 	edkgen "github.com/bnb-chain/tss-lib/v2/eddsa/keygen"
@@ -139,20 +140,27 @@ type c17Row struct {
 	Claim      string `json:"claim"`
 	Global     string `json:"global"`
 	Stated     string `json:"stated"`
+	PreKind    string `json:"pre_kind"`  // fresh | seen | reuse (PointDoors.tla: PreStates)
+	PreHow     string `json:"pre_how"`   // seen: what was presented before; reuse: how the target got bound
+	PreCurve   string `json:"pre_curve"` // reuse: the curve the target is bound to
 	WrongCurve bool   `json:"wrong_curve"`
 	Expect     string `json:"expect"`
 }
 
 type c17DoorCase struct {
 	Row     c17Row  `json:"row"`
-	Variant string  `json:"variant"` // how the pair was built
-	Pair    c17XY   `json:"pair"`
+	Variant string  `json:"variant"`        // how the pair was built
+	Pair    c17XY   `json:"pair"`           // an empty string stands for a missing coordinate (class "absent")
 	List    []c17XY `json:"list,omitempty"` // UnFlattenECPoints: the whole list, Pair sits at Pos
 	Pos     int     `json:"pos"`
+	Form    int     `json:"form,omitempty"`  // JSON spelling of a missing coordinate: 0 null, 1 short array, 2 no Coords member
+	Embed   string  `json:"embed,omitempty"` // receiver doors: where the decoded-into *ECPoint sits (direct, field, slice, ...-savedata)
+	Prev    *c17XY  `json:"prev,omitempty"`  // reuse: what the target held before; seen/intact_point_own_curve: the intact point
 }
 
 type c17DoorOutcome struct {
 	Accepted bool
+	Reused   string // "yes" / "no": an accepted decode into a prepared target returned that very object
 	Panicked string
 	Finding  *c17Finding
 	Drift    string
@@ -168,6 +176,10 @@ func c17DoorFamily(door string) string {
 	return "message-field"
 }
 
+func c17HasReceiver(door string) bool {
+	return door == "ECPoint.UnmarshalJSON" || door == "ECPoint.UnmarshalJSON(no Curve member)" || door == "ECPoint.GobDecode"
+}
+
 func c17ClassKey(row c17Row) string {
 	if row.WrongCurve {
 		return "point-of-other-curve"
@@ -178,6 +190,38 @@ func c17ClassKey(row c17Row) string {
 	return row.Class
 }
 
+// c17PreKey: suffix of the violation key for cases with a history ("" for a first use, so that the keys of the
+// history-free table stay what they were).
+func c17PreKey(row c17Row) string {
+	switch row.PreKind {
+	case "seen":
+		return ":repeated-use-of-the-door"
+	case "reuse":
+		return ":reused-target"
+	}
+	return ""
+}
+
+func c17PreDesc(dc *c17DoorCase) string {
+	row := dc.Row
+	switch row.PreKind {
+	case "seen":
+		if row.PreHow == "same_pair_other_curve" {
+			return "; history: the same pair was presented at this door immediately before with the other curve stated"
+		}
+		if row.PreHow == "intact_point_earlier_in_the_list" {
+			return "; history: the intact point the pair was made from stands directly before it in the same list"
+		}
+		return fmt.Sprintf("; history: the intact point the pair was made from was presented at this door immediately before on its own curve %s", row.Base)
+	case "reuse":
+		how := map[string]string{"json": "decoded from JSON naming", "legacy_json": "decoded from JSON without a curve name while the default curve was",
+			"gob": "decoded from Gob while the default curve was", "constructor": "made by NewECPoint for", "setcurve": "an empty point marked with SetCurve for",
+			"failed_json": "the target of a refused JSON decode naming"}[row.PreHow]
+		return fmt.Sprintf("; history: the *ECPoint decoded into (%s) was used before: %s %s", dc.Embed, how, row.PreCurve)
+	}
+	return ""
+}
+
 func c17Bytes(v *big.Int) []byte {
 	if v.Sign() == 0 {
 		return []byte{0}
@@ -185,30 +229,308 @@ func c17Bytes(v *big.Int) []byte {
 	return v.Bytes()
 }
 
-// c17Present hands the pair to the real door.  It returns the point the door produced (nil if refused), the
-// pair read back from a re-encoding of that point, and the registry name of the curve the result is tagged with.
-func c17Present(dc *c17DoorCase) (res *crypto.ECPoint, backX, backY *big.Int, backCurve string, err error, panicked string) {
-	x, y, ok := dc.Pair.ints()
-	if !ok {
-		return nil, nil, nil, "", fmt.Errorf("harness: bad pair"), ""
+// opt parses a pair in which an empty string stands for a missing coordinate (nil).
+func (v c17XY) opt() (x, y *big.Int, ok bool) {
+	ok = true
+	if v.X != "" {
+		var k bool
+		x, k = new(big.Int).SetString(v.X, 10)
+		ok = ok && k
 	}
-	stated := c17Get(dc.Row.Stated)
-	nameOf := func(p *crypto.ECPoint) string {
-		n, _ := tss.GetCurveName(p.Curve())
-		return string(n)
+	if v.Y != "" {
+		var k bool
+		y, k = new(big.Int).SetString(v.Y, 10)
+		ok = ok && k
 	}
-	bx, by := c17Bytes(x), c17Bytes(y)
+	return
+}
+
+func (v c17XY) show() string {
+	s := func(c string) string {
+		if c == "" {
+			return "<absent>"
+		}
+		return core.Short(c, 80)
+	}
+	return "(" + s(v.X) + ", " + s(v.Y) + ")"
+}
+
+// c17Coords reads the coordinates of a library point; ok=false if it holds none (reading them would panic).
+func c17Coords(p *crypto.ECPoint) (x, y *big.Int, ok bool) {
+	defer func() {
+		if recover() != nil {
+			x, y, ok = nil, nil, false
+		}
+	}()
+	if p == nil {
+		return nil, nil, false
+	}
+	return p.X(), p.Y(), true
+}
+
+func c17NameOf(p *crypto.ECPoint) string {
+	if p == nil || p.Curve() == nil {
+		return ""
+	}
+	n, _ := tss.GetCurveName(p.Curve())
+	return string(n)
+}
+
+// holders of a *ECPoint that encoding/json and encoding/gob decode INTO: a non-nil pointer they find is re-used
+type c17HolderP struct{ P *crypto.ECPoint }
+type c17HolderPs struct{ Ps []*crypto.ECPoint }
+
+var c17JSONEmbeds = []string{"direct", "field", "slice", "eddsa-savedata", "ecdsa-savedata"}
+var c17GobEmbeds = []string{"direct", "field", "slice"}
+
+// c17DoorObj is one real door together with what persists between two uses of it: the *ECPoint that is decoded into
+// (receiver doors; nil = a new object per use) and the message / byte-slice object whose fields are overwritten
+// (message-field doors).
+type c17DoorObj struct {
+	name   string
+	target *crypto.ECPoint
+	embed  string
+	field  func(ec elliptic.Curve, bx, by []byte) (*crypto.ECPoint, error)
+}
+
+// c17Pres is one presentation: a pair (nil = missing coordinate) with the curve stated the way the door takes it.
+type c17Pres struct {
+	statedBy, claim string
+	stated          *c17Curve
+	x, y            *big.Int
+	list            []c17XY
+	pos, form       int
+}
+
+func c17FieldDoor(door string) func(ec elliptic.Curve, bx, by []byte) (*crypto.ECPoint, error) {
 	one := []byte{1}
-	switch dc.Row.Door {
+	switch door {
+	case "eddsa/keygen.KGRound2Message2.UnmarshalZKProof":
+		m := &edkgen.KGRound2Message2{ProofT: one}
+		return func(ec elliptic.Curve, bx, by []byte) (*crypto.ECPoint, error) {
+			m.ProofAlphaX, m.ProofAlphaY = bx, by
+			pf, e := m.UnmarshalZKProof(ec)
+			if e != nil {
+				return nil, e
+			}
+			return pf.Alpha, nil
+		}
+	case "eddsa/signing.SignRound2Message.UnmarshalZKProof":
+		m := &edsig.SignRound2Message{ProofT: one}
+		return func(ec elliptic.Curve, bx, by []byte) (*crypto.ECPoint, error) {
+			m.ProofAlphaX, m.ProofAlphaY = bx, by
+			pf, e := m.UnmarshalZKProof(ec)
+			if e != nil {
+				return nil, e
+			}
+			return pf.Alpha, nil
+		}
+	case "eddsa/resharing.DGRound1Message.UnmarshalEDDSAPub":
+		m := &edrs.DGRound1Message{VCommitment: one}
+		return func(ec elliptic.Curve, bx, by []byte) (*crypto.ECPoint, error) {
+			m.EddsaPubX, m.EddsaPubY = bx, by
+			return m.UnmarshalEDDSAPub(ec)
+		}
+	case "ecdsa/signing.SignRound4Message.UnmarshalZKProof":
+		m := &ecsig.SignRound4Message{ProofT: one}
+		return func(ec elliptic.Curve, bx, by []byte) (*crypto.ECPoint, error) {
+			m.ProofAlphaX, m.ProofAlphaY = bx, by
+			pf, e := m.UnmarshalZKProof(ec)
+			if e != nil {
+				return nil, e
+			}
+			return pf.Alpha, nil
+		}
+	case "ecdsa/signing.SignRound6Message.UnmarshalZKProof":
+		m := &ecsig.SignRound6Message{ProofT: one}
+		return func(ec elliptic.Curve, bx, by []byte) (*crypto.ECPoint, error) {
+			m.ProofAlphaX, m.ProofAlphaY = bx, by
+			pf, e := m.UnmarshalZKProof(ec)
+			if e != nil {
+				return nil, e
+			}
+			return pf.Alpha, nil
+		}
+	case "ecdsa/signing.SignRound6Message.UnmarshalZKVProof":
+		m := &ecsig.SignRound6Message{VProofT: one, VProofU: one}
+		return func(ec elliptic.Curve, bx, by []byte) (*crypto.ECPoint, error) {
+			m.VProofAlphaX, m.VProofAlphaY = bx, by
+			pf, e := m.UnmarshalZKVProof(ec)
+			if e != nil {
+				return nil, e
+			}
+			return pf.Alpha, nil
+		}
+	case "ecdsa/resharing.DGRound1Message.UnmarshalECDSAPub":
+		m := &ecrs.DGRound1Message{VCommitment: one}
+		return func(ec elliptic.Curve, bx, by []byte) (*crypto.ECPoint, error) {
+			m.EcdsaPubX, m.EcdsaPubY = bx, by
+			return m.UnmarshalECDSAPub(ec)
+		}
+	case "crypto/mta.ProofBobWCFromBytes":
+		bzs := make([][]byte, mta.ProofBobWCBytesParts)
+		for i := range bzs {
+			bzs[i] = one
+		}
+		return func(ec elliptic.Curve, bx, by []byte) (*crypto.ECPoint, error) {
+			bzs[10], bzs[11] = bx, by
+			pf, e := mta.ProofBobWCFromBytes(ec, bzs)
+			if e != nil {
+				return nil, e
+			}
+			return pf.U, nil
+		}
+	}
+	return nil
+}
+
+func c17NewDoor(door, embed string) *c17DoorObj {
+	if embed == "" {
+		embed = "direct"
+	}
+	return &c17DoorObj{name: door, embed: embed, field: c17FieldDoor(door)}
+}
+
+// c17JSONPayload: the JSON form of a pair, with or without the curve name.
+func c17JSONPayload(statedBy, claim string, x, y *big.Int, form int) string {
+	num := func(v *big.Int) string {
+		if v == nil {
+			return "null"
+		}
+		return v.String()
+	}
+	coords := fmt.Sprintf(`"Coords":[%s,%s]`, num(x), num(y))
+	switch {
+	case form == 1 && y == nil && x != nil:
+		coords = fmt.Sprintf(`"Coords":[%s]`, x)
+	case form == 1 && y == nil && x == nil:
+		coords = `"Coords":[]`
+	case form == 2 && y == nil && x == nil:
+		coords = ""
+	}
+	var members []string
+	if statedBy == "payload" {
+		members = append(members, fmt.Sprintf(`"Curve":%q`, claim))
+	}
+	if coords != "" {
+		members = append(members, coords)
+	}
+	return "{" + strings.Join(members, ",") + "}"
+}
+
+// decodeJSON hands the payload to encoding/json with the door's target sitting where `embed` says.
+func (d *c17DoorObj) decodeJSON(payload string) (*crypto.ECPoint, error) {
+	switch d.embed {
+	case "field":
+		h := c17HolderP{P: d.target}
+		if e := json.Unmarshal([]byte(`{"P":`+payload+`}`), &h); e != nil {
+			return nil, e
+		}
+		return h.P, nil
+	case "slice":
+		h := c17HolderPs{}
+		if d.target != nil {
+			h.Ps = []*crypto.ECPoint{d.target}
+		}
+		if e := json.Unmarshal([]byte(`{"Ps":[`+payload+`]}`), &h); e != nil {
+			return nil, e
+		}
+		if len(h.Ps) != 1 {
+			return nil, fmt.Errorf("harness: %d elements decoded", len(h.Ps))
+		}
+		return h.Ps[0], nil
+	case "eddsa-savedata":
+		h := edkgen.LocalPartySaveData{EDDSAPub: d.target}
+		if e := json.Unmarshal([]byte(`{"EDDSAPub":`+payload+`}`), &h); e != nil {
+			return nil, e
+		}
+		return h.EDDSAPub, nil
+	case "ecdsa-savedata":
+		h := eckg.LocalPartySaveData{}
+		if d.target != nil {
+			h.BigXj = []*crypto.ECPoint{d.target}
+		}
+		if e := json.Unmarshal([]byte(`{"BigXj":[`+payload+`]}`), &h); e != nil {
+			return nil, e
+		}
+		if len(h.BigXj) != 1 {
+			return nil, fmt.Errorf("harness: %d elements decoded", len(h.BigXj))
+		}
+		return h.BigXj[0], nil
+	}
+	p := d.target
+	if p == nil {
+		p = new(crypto.ECPoint)
+	}
+	if e := json.Unmarshal([]byte(payload), p); e != nil {
+		return nil, e
+	}
+	return p, nil
+}
+
+// gobWire: the bytes anybody can produce: the Gob form of the coordinate pair (the encoding has no curve member), in
+// the shape the holder is decoded from.
+func (d *c17DoorObj) gobWire(pt *crypto.ECPoint) ([]byte, error) {
+	var wire bytes.Buffer
+	var e error
+	switch d.embed {
+	case "field":
+		e = gob.NewEncoder(&wire).Encode(&c17HolderP{P: pt})
+	case "slice":
+		e = gob.NewEncoder(&wire).Encode(&c17HolderPs{Ps: []*crypto.ECPoint{pt}})
+	default:
+		e = gob.NewEncoder(&wire).Encode(pt)
+	}
+	return append([]byte(nil), wire.Bytes()...), e
+}
+
+func (d *c17DoorObj) decodeGob(raw []byte) (*crypto.ECPoint, error) {
+	dec := gob.NewDecoder(bytes.NewReader(raw))
+	switch d.embed {
+	case "field":
+		h := c17HolderP{P: d.target}
+		if e := dec.Decode(&h); e != nil {
+			return nil, e
+		}
+		return h.P, nil
+	case "slice":
+		h := c17HolderPs{}
+		if d.target != nil {
+			h.Ps = []*crypto.ECPoint{d.target}
+		}
+		if e := dec.Decode(&h); e != nil {
+			return nil, e
+		}
+		if len(h.Ps) != 1 {
+			return nil, fmt.Errorf("harness: %d elements decoded", len(h.Ps))
+		}
+		return h.Ps[0], nil
+	}
+	p := d.target
+	if p == nil {
+		p = new(crypto.ECPoint)
+	}
+	if e := dec.Decode(p); e != nil {
+		return nil, e
+	}
+	return p, nil
+}
+
+// present hands the pair to the real door.  It returns the point the door produced (nil if refused), the pair read back
+// from a re-encoding of that point, and the registry name of the curve the result is tagged with.
+func (d *c17DoorObj) present(in c17Pres) (res *crypto.ECPoint, backX, backY *big.Int, backCurve string, err error, panicked string) {
+	stated, x, y := in.stated, in.x, in.y
+	switch d.name {
 	case "crypto.NewECPoint":
 		res, err, panicked = c17Call(func() (*crypto.ECPoint, error) { return crypto.NewECPoint(stated.ec, x, y) })
 		if res != nil {
-			backX, backY, backCurve = res.X(), res.Y(), nameOf(res)
+			backX, backY, _ = c17Coords(res)
+			backCurve = c17NameOf(res)
 		}
 	case "crypto.UnFlattenECPoints":
 		var flat []*big.Int
-		for _, e := range dc.List {
-			ex, ey, ok := e.ints()
+		for _, e := range in.list {
+			ex, ey, ok := e.opt()
 			if !ok {
 				return nil, nil, nil, "", fmt.Errorf("harness: bad list"), ""
 			}
@@ -221,39 +543,28 @@ func c17Present(dc *c17DoorCase) (res *crypto.ECPoint, backX, backY *big.Int, ba
 			if e != nil {
 				return nil, e
 			}
-			if len(out) != len(dc.List) {
-				return nil, fmt.Errorf("returned %d points for %d pairs", len(out), len(dc.List))
+			if len(out) != len(in.list) {
+				return nil, fmt.Errorf("returned %d points for %d pairs", len(out), len(in.list))
 			}
-			return out[dc.Pos], nil
+			return out[in.pos], nil
 		})
 		if res != nil {
-			re, e := crypto.FlattenECPoints(out)
+			re, e, _ := c17CallFlatten(out)
 			if e != nil || len(re) != len(flat) {
-				return res, nil, nil, nameOf(res), nil, ""
+				return res, nil, nil, c17NameOf(res), nil, ""
 			}
 			for i := range re {
-				if re[i].Cmp(flat[i]) != 0 && i != 2*dc.Pos && i != 2*dc.Pos+1 {
-					return res, nil, nil, nameOf(res), nil, "" // a neighbour changed: reported as a failed round trip
+				if i != 2*in.pos && i != 2*in.pos+1 && (re[i] == nil || flat[i] == nil || re[i].Cmp(flat[i]) != 0) {
+					return res, nil, nil, c17NameOf(res), nil, "" // a neighbour changed: reported as a failed round trip
 				}
 			}
-			backX, backY, backCurve = re[2*dc.Pos], re[2*dc.Pos+1], nameOf(res)
+			backX, backY, backCurve = re[2*in.pos], re[2*in.pos+1], c17NameOf(res)
 		}
 	case "ECPoint.UnmarshalJSON", "ECPoint.UnmarshalJSON(no Curve member)":
-		var payload string
-		if dc.Row.StatedBy == "payload" {
-			payload = fmt.Sprintf(`{"Curve":%q,"Coords":[%s,%s]}`, dc.Row.Claim, x, y)
-		} else {
-			payload = fmt.Sprintf(`{"Coords":[%s,%s]}`, x, y)
-		}
-		res, err, panicked = c17Call(func() (*crypto.ECPoint, error) {
-			var p crypto.ECPoint
-			if e := json.Unmarshal([]byte(payload), &p); e != nil {
-				return nil, e
-			}
-			return &p, nil
-		})
+		payload := c17JSONPayload(in.statedBy, in.claim, x, y, in.form)
+		res, err, panicked = c17Call(func() (*crypto.ECPoint, error) { return d.decodeJSON(payload) })
 		if res != nil {
-			b, e := json.Marshal(res)
+			b, e, _ := c17CallBytes(func() ([]byte, error) { return json.Marshal(res) })
 			var aux struct {
 				Curve  string
 				Coords [2]*big.Int
@@ -263,136 +574,221 @@ func c17Present(dc *c17DoorCase) (res *crypto.ECPoint, backX, backY *big.Int, ba
 			}
 		}
 	case "ECPoint.GobDecode":
-		// the bytes anybody can produce: the Gob form of the coordinate pair (the encoding has no curve member)
-		var wire bytes.Buffer
-		if e := gob.NewEncoder(&wire).Encode(crypto.NewECPointNoCurveCheck(stated.ec, x, y)); e != nil {
+		if x == nil || y == nil {
+			return nil, nil, nil, "", fmt.Errorf("harness: the Gob form cannot express a missing coordinate"), ""
+		}
+		raw, e := d.gobWire(crypto.NewECPointNoCurveCheck(stated.ec, x, y))
+		if e != nil {
 			return nil, nil, nil, "", fmt.Errorf("harness: gob encode: %v", e), ""
 		}
-		raw := append([]byte(nil), wire.Bytes()...)
-		res, err, panicked = c17Call(func() (*crypto.ECPoint, error) {
-			var p crypto.ECPoint
-			if e := gob.NewDecoder(bytes.NewReader(raw)).Decode(&p); e != nil {
-				return nil, e
-			}
-			return &p, nil
-		})
+		res, err, panicked = c17Call(func() (*crypto.ECPoint, error) { return d.decodeGob(raw) })
 		if res != nil {
-			var again bytes.Buffer
-			if e := gob.NewEncoder(&again).Encode(res); e == nil && bytes.Equal(again.Bytes(), raw) {
-				backX, backY = res.X(), res.Y()
+			again, e, _ := c17CallBytes(func() ([]byte, error) { return d.gobWire(res) })
+			if e == nil && bytes.Equal(again, raw) {
+				backX, backY, _ = c17Coords(res)
 			}
-			backCurve = nameOf(res)
+			backCurve = c17NameOf(res)
 		}
-	case "eddsa/keygen.KGRound2Message2.UnmarshalZKProof":
-		res, err, panicked = c17Call(func() (*crypto.ECPoint, error) {
-			pf, e := (&edkgen.KGRound2Message2{ProofAlphaX: bx, ProofAlphaY: by, ProofT: one}).UnmarshalZKProof(stated.ec)
-			if e != nil {
-				return nil, e
-			}
-			return pf.Alpha, nil
-		})
-	case "eddsa/signing.SignRound2Message.UnmarshalZKProof":
-		res, err, panicked = c17Call(func() (*crypto.ECPoint, error) {
-			pf, e := (&edsig.SignRound2Message{ProofAlphaX: bx, ProofAlphaY: by, ProofT: one}).UnmarshalZKProof(stated.ec)
-			if e != nil {
-				return nil, e
-			}
-			return pf.Alpha, nil
-		})
-	case "eddsa/resharing.DGRound1Message.UnmarshalEDDSAPub":
-		res, err, panicked = c17Call(func() (*crypto.ECPoint, error) {
-			return (&edrs.DGRound1Message{EddsaPubX: bx, EddsaPubY: by, VCommitment: one}).UnmarshalEDDSAPub(stated.ec)
-		})
-	case "ecdsa/signing.SignRound4Message.UnmarshalZKProof":
-		res, err, panicked = c17Call(func() (*crypto.ECPoint, error) {
-			pf, e := (&ecsig.SignRound4Message{ProofAlphaX: bx, ProofAlphaY: by, ProofT: one}).UnmarshalZKProof(stated.ec)
-			if e != nil {
-				return nil, e
-			}
-			return pf.Alpha, nil
-		})
-	case "ecdsa/signing.SignRound6Message.UnmarshalZKProof":
-		res, err, panicked = c17Call(func() (*crypto.ECPoint, error) {
-			pf, e := (&ecsig.SignRound6Message{ProofAlphaX: bx, ProofAlphaY: by, ProofT: one}).UnmarshalZKProof(stated.ec)
-			if e != nil {
-				return nil, e
-			}
-			return pf.Alpha, nil
-		})
-	case "ecdsa/signing.SignRound6Message.UnmarshalZKVProof":
-		res, err, panicked = c17Call(func() (*crypto.ECPoint, error) {
-			pf, e := (&ecsig.SignRound6Message{VProofAlphaX: bx, VProofAlphaY: by, VProofT: one, VProofU: one}).UnmarshalZKVProof(stated.ec)
-			if e != nil {
-				return nil, e
-			}
-			return pf.Alpha, nil
-		})
-	case "ecdsa/resharing.DGRound1Message.UnmarshalECDSAPub":
-		res, err, panicked = c17Call(func() (*crypto.ECPoint, error) {
-			return (&ecrs.DGRound1Message{EcdsaPubX: bx, EcdsaPubY: by, VCommitment: one}).UnmarshalECDSAPub(stated.ec)
-		})
-	case "crypto/mta.ProofBobWCFromBytes":
-		bzs := make([][]byte, mta.ProofBobWCBytesParts)
-		for i := range bzs {
-			bzs[i] = one
-		}
-		bzs[10], bzs[11] = bx, by
-		res, err, panicked = c17Call(func() (*crypto.ECPoint, error) {
-			pf, e := mta.ProofBobWCFromBytes(stated.ec, bzs)
-			if e != nil {
-				return nil, e
-			}
-			return pf.U, nil
-		})
 	default:
-		return nil, nil, nil, "", fmt.Errorf("harness: unknown door %q", dc.Row.Door), ""
+		if d.field == nil {
+			return nil, nil, nil, "", fmt.Errorf("harness: unknown door %q", d.name), ""
+		}
+		if x == nil || y == nil {
+			return nil, nil, nil, "", fmt.Errorf("harness: a byte field cannot express a missing coordinate"), ""
+		}
+		bx, by := c17Bytes(x), c17Bytes(y)
+		res, err, panicked = c17Call(func() (*crypto.ECPoint, error) { return d.field(stated.ec, bx, by) })
+		if rx, ry, ok := c17Coords(res); ok {
+			// the message doors re-encode a point as the big-endian bytes of its coordinates
+			backX, backY = new(big.Int).SetBytes(rx.Bytes()), new(big.Int).SetBytes(ry.Bytes())
+			backCurve = c17NameOf(res)
+		}
 	}
-	if res != nil && backX == nil && c17DoorFamily(dc.Row.Door) == "message-field" {
-		// the message doors re-encode a point as the big-endian bytes of its coordinates
-		backX, backY = new(big.Int).SetBytes(res.X().Bytes()), new(big.Int).SetBytes(res.Y().Bytes())
-		backCurve = nameOf(res)
-	}
+	return
+}
+
+func c17CallFlatten(pts []*crypto.ECPoint) (out []*big.Int, err error, panicked string) {
+	defer func() {
+		if r := recover(); r != nil {
+			out, err, panicked = nil, fmt.Errorf("panic: %v", r), fmt.Sprint(r)
+		}
+	}()
+	out, err = crypto.FlattenECPoints(pts)
+	return
+}
+
+func c17CallBytes(f func() ([]byte, error)) (out []byte, err error, panicked string) {
+	defer func() {
+		if r := recover(); r != nil {
+			out, err, panicked = nil, fmt.Errorf("panic: %v", r), fmt.Sprint(r)
+		}
+	}()
+	out, err = f()
 	return
 }
 
 // c17SetGlobal switches tss.EC() (callers serialise door evaluation).
 func c17SetGlobal(name string) { tss.SetCurve(c17Get(name).ec) }
 
+// c17Bind makes a *ECPoint that "was used before": bound to curve b the way `how` says (PointDoors.tla: BindingWays),
+// with real calls only.  prev is a valid point of b (how = failed_json: a pair that is not on b).
+func c17Bind(how string, b *c17Curve, prev c17XY) (*crypto.ECPoint, *c17Finding) {
+	px, py, ok := prev.ints()
+	if !ok && how != "setcurve" {
+		return nil, &c17Finding{Inconcl: true, What: "bad previous content in scenario"}
+	}
+	refused := func(fam string, err error, pan string) *c17Finding {
+		return &c17Finding{Key: fmt.Sprintf("C17:refuses-valid-point:%s:%s:target-preparation", fam, b.name),
+			What: fmt.Sprintf("a prime-order point of the stated curve %s was refused by %s (err=%v panic=%q) while a target object was being prepared: (%s, %s)", b.name, fam, err, pan, core.Short(prev.X, 80), core.Short(prev.Y, 80))}
+	}
+	switch how {
+	case "setcurve":
+		return new(crypto.ECPoint).SetCurve(b.ec), nil
+	case "constructor":
+		p, err, pan := c17Call(func() (*crypto.ECPoint, error) { return crypto.NewECPoint(b.ec, px, py) })
+		if p == nil {
+			return nil, refused("crypto.NewECPoint", err, pan)
+		}
+		return p, nil
+	case "json", "failed_json", "legacy_json":
+		by := "payload"
+		if how == "legacy_json" {
+			by = "global"
+			c17SetGlobal(b.name)
+		}
+		t := new(crypto.ECPoint)
+		_, err, pan := c17Call(func() (*crypto.ECPoint, error) {
+			return t, json.Unmarshal([]byte(c17JSONPayload(by, b.name, px, py, 0)), t)
+		})
+		if how != "failed_json" && (err != nil || pan != "") {
+			return nil, refused("ECPoint.UnmarshalJSON", err, pan)
+		}
+		// failed_json: a decode that succeeded although the pair is not on b is the business of the first-use rows
+		return t, nil
+	case "gob":
+		c17SetGlobal(b.name)
+		var wire bytes.Buffer
+		if e := gob.NewEncoder(&wire).Encode(crypto.NewECPointNoCurveCheck(b.ec, px, py)); e != nil {
+			return nil, &c17Finding{Inconcl: true, What: fmt.Sprintf("gob encode: %v", e)}
+		}
+		t := new(crypto.ECPoint)
+		_, err, pan := c17Call(func() (*crypto.ECPoint, error) { return t, gob.NewDecoder(&wire).Decode(t) })
+		if err != nil || pan != "" {
+			return nil, refused("ECPoint.GobDecode", err, pan)
+		}
+		return t, nil
+	}
+	return nil, &c17Finding{Inconcl: true, What: "unknown way to bind a target: " + how}
+}
+
+// c17Prepare brings the door into the pre-state of the case with real calls (nothing of it is judged here: every
+// presentation made on the way is a first-use row of its own).
+func c17Prepare(dc *c17DoorCase) (*c17DoorObj, *c17Finding) {
+	row := dc.Row
+	d := c17NewDoor(row.Door, dc.Embed)
+	x, y, _ := dc.Pair.opt()
+	switch row.PreKind {
+	case "fresh", "":
+	case "seen":
+		if row.PreHow == "intact_point_earlier_in_the_list" {
+			// the history is part of the list itself (c17BuildCases)
+			if row.Door != "crypto.UnFlattenECPoints" || dc.Prev == nil || dc.Pos < 1 || dc.Pos >= len(dc.List) || dc.List[dc.Pos-1] != *dc.Prev {
+				return nil, &c17Finding{Inconcl: true, What: "the list does not hold the intact point before the pair"}
+			}
+			break
+		}
+		in := c17Pres{statedBy: row.StatedBy, form: dc.Form}
+		switch row.PreHow {
+		case "same_pair_other_curve":
+			in.stated, in.x, in.y = c17Get(row.Stated).other(), x, y
+			in.list = []c17XY{dc.Pair}
+		case "intact_point_own_curve":
+			if dc.Prev == nil {
+				return nil, &c17Finding{Inconcl: true, What: "scenario lacks the intact point"}
+			}
+			px, py, ok := dc.Prev.ints()
+			if !ok {
+				return nil, &c17Finding{Inconcl: true, What: "bad intact point in scenario"}
+			}
+			in.stated, in.x, in.y = c17Get(row.Base), px, py
+			in.list = []c17XY{*dc.Prev}
+		default:
+			return nil, &c17Finding{Inconcl: true, What: "unknown history " + row.PreHow}
+		}
+		in.claim = in.stated.name
+		c17SetGlobal(in.stated.name) // the doors that take the stated curve from the default; the others must not care
+		if _, _, _, _, err, _ := d.present(in); err != nil && strings.HasPrefix(err.Error(), "harness:") {
+			return nil, &c17Finding{Inconcl: true, What: err.Error()}
+		}
+	case "reuse":
+		b := c17Get(row.PreCurve)
+		if b == nil || !c17HasReceiver(row.Door) {
+			return nil, &c17Finding{Inconcl: true, What: "catalogue row re-uses a target at a door without one"}
+		}
+		prev := c17XY{}
+		if dc.Prev != nil {
+			prev = *dc.Prev
+		}
+		t, f := c17Bind(row.PreHow, b, prev)
+		if f != nil {
+			return nil, f
+		}
+		if row.PreHow != "setcurve" && row.PreHow != "failed_json" && (!tss.SameCurve(t.Curve(), b.ec) || !t.ValidateBasic()) {
+			return nil, &c17Finding{Inconcl: true, What: fmt.Sprintf("the prepared target is not a valid point of %s", b.name)}
+		}
+		d.target = t
+	default:
+		return nil, &c17Finding{Inconcl: true, What: "unknown pre-state " + row.PreKind}
+	}
+	return d, nil
+}
+
 // c17DoorEval presents one case at its door and judges the outcome against the model's expectation.
 func c17DoorEval(dc *c17DoorCase) c17DoorOutcome {
 	var o c17DoorOutcome
 	row := dc.Row
 	stated := c17Get(row.Stated)
-	if stated == nil || c17Get(row.Global) == nil {
+	if stated == nil || c17Get(row.Global) == nil || c17Get(row.Base) == nil {
 		o.Finding = &c17Finding{Inconcl: true, What: "catalogue row names an unknown curve"}
 		return o
 	}
-	x, y, ok := dc.Pair.ints()
+	x, y, ok := dc.Pair.opt()
 	if !ok {
 		o.Finding = &c17Finding{Inconcl: true, What: "bad pair in scenario"}
 		return o
 	}
 	// the independent implementation decides whether the pair lies on the stated curve; it must agree with the model
-	on := stated.g.OnCurve(obs.Pt{X: x, Y: y})
+	on := x != nil && y != nil && stated.g.OnCurve(obs.Pt{X: x, Y: y})
 	if on != (row.Expect == "accept") {
 		o.Finding = &c17Finding{Inconcl: true, What: fmt.Sprintf("model expects %s for %s/%s (%s) at %s but the independent arithmetic says on-curve=%v",
 			row.Expect, row.Base, row.Class, dc.Variant, row.Stated, on)}
 		return o
 	}
+	d, f := c17Prepare(dc)
+	if f != nil {
+		o.Finding = f
+		return o
+	}
 	c17SetGlobal(row.Global)
-	res, bx, by, bcurve, err, panicked := c17Present(dc)
+	res, bx, by, bcurve, err, panicked := d.present(c17Pres{statedBy: row.StatedBy, claim: row.Claim, stated: stated, x: x, y: y, list: dc.List, pos: dc.Pos, form: dc.Form})
 	if err != nil && strings.HasPrefix(err.Error(), "harness:") {
 		o.Finding = &c17Finding{Inconcl: true, What: err.Error()}
 		return o
 	}
 	o.Panicked = panicked
 	o.Accepted = res != nil
+	if res != nil && d.target != nil {
+		o.Reused = "no"
+		if res == d.target {
+			o.Reused = "yes"
+		}
+	}
 	fam := c17DoorFamily(row.Door)
-	desc := fmt.Sprintf("%s (stated curve %s by %s, default curve %s): %s pair of class %s/%s [%s] (%s, %s)",
-		row.Door, row.Stated, row.StatedBy, row.Global, row.Base, row.Class, row.Base, dc.Variant, core.Short(dc.Pair.X, 80), core.Short(dc.Pair.Y, 80))
+	desc := fmt.Sprintf("%s (stated curve %s by %s, default curve %s): %s pair of class %s/%s [%s] %s%s",
+		row.Door, row.Stated, row.StatedBy, row.Global, row.Base, row.Class, row.Base, dc.Variant, dc.Pair.show(), c17PreDesc(dc))
 	switch {
 	case row.Expect == "reject" && o.Accepted:
-		o.Finding = &c17Finding{Key: fmt.Sprintf("C17:accepts-off-curve:%s:%s:%s", fam, row.Stated, c17ClassKey(row)),
+		o.Finding = &c17Finding{Key: fmt.Sprintf("C17:accepts-off-curve:%s:%s:%s%s", fam, row.Stated, c17ClassKey(row), c17PreKey(row)),
 			What: "a coordinate pair that does not lie on the stated curve was accepted — " + desc}
 	case row.Expect == "accept" && !o.Accepted:
 		if row.Class == "generator" || row.Class == "random" {
@@ -400,7 +796,7 @@ func c17DoorEval(dc *c17DoorCase) c17DoorOutcome {
 			if panicked != "" {
 				why = "panic: " + panicked
 			}
-			o.Finding = &c17Finding{Key: fmt.Sprintf("C17:refuses-valid-point:%s:%s:%s", fam, row.Stated, row.Class),
+			o.Finding = &c17Finding{Key: fmt.Sprintf("C17:refuses-valid-point:%s:%s:%s%s", fam, row.Stated, row.Class, c17PreKey(row)),
 				What: "a prime-order point of the stated curve was refused (" + core.Short(why, 120) + ") — " + desc}
 		} else {
 			// small-order / mixed-order / neutral points are on the curve; a door that refuses them is stricter than the
@@ -409,27 +805,38 @@ func c17DoorEval(dc *c17DoorCase) c17DoorOutcome {
 		}
 	case o.Accepted:
 		// same point, same curve, and the re-encoding reproduces the input
-		if res.X().Cmp(x) != 0 || res.Y().Cmp(y) != 0 {
-			o.Finding = &c17Finding{Key: fmt.Sprintf("C17:decoded-point-differs:%s:%s", fam, row.Stated), What: fmt.Sprintf("decoded point (%s,%s) differs from the presented pair — %s", res.X(), res.Y(), desc)}
-		} else if !tss.SameCurve(res.Curve(), stated.ec) {
-			o.Finding = &c17Finding{Key: fmt.Sprintf("C17:decoded-curve-differs:%s:%s", fam, row.Stated), What: "decoded point is tagged with another curve than the stated one — " + desc}
+		rx, ry, has := c17Coords(res)
+		if !has || rx.Cmp(x) != 0 || ry.Cmp(y) != 0 {
+			o.Finding = &c17Finding{Key: fmt.Sprintf("C17:decoded-point-differs:%s:%s%s", fam, row.Stated, c17PreKey(row)), What: fmt.Sprintf("decoded point (%v,%v) differs from the presented pair — %s", rx, ry, desc)}
+		} else if res.Curve() == nil || !tss.SameCurve(res.Curve(), stated.ec) {
+			o.Finding = &c17Finding{Key: fmt.Sprintf("C17:decoded-curve-differs:%s:%s%s", fam, row.Stated, c17PreKey(row)), What: fmt.Sprintf("decoded point is tagged with another curve (%q) than the stated one — %s", c17NameOf(res), desc)}
 		} else if bx == nil || by == nil || bx.Cmp(x) != 0 || by.Cmp(y) != 0 || bcurve != row.Stated {
-			o.Finding = &c17Finding{Key: fmt.Sprintf("C17:reencoding-differs:%s:%s", fam, row.Stated), What: fmt.Sprintf("re-encoding what was decoded gives (%v,%v) on %q — %s", bx, by, bcurve, desc)}
+			o.Finding = &c17Finding{Key: fmt.Sprintf("C17:reencoding-differs:%s:%s%s", fam, row.Stated, c17PreKey(row)), What: fmt.Sprintf("re-encoding what was decoded gives (%v,%v) on %q — %s", bx, by, bcurve, desc)}
 		}
 	}
 	return o
 }
 
-// c17BuildCases concretises one catalogue row into n coordinate pairs.
+// c17BuildCases concretises one catalogue row into n coordinate pairs (and, for rows with a history, the concrete
+// history: previous content of the target, where the target sits, the intact point presented before).
 func c17BuildCases(row c17Row, n int, rng *rand.Rand, pool map[string][]obs.Pt) []*c17DoorCase {
 	base := c17Get(row.Base)
 	stated := c17Get(row.Stated)
 	var out []*c17DoorCase
 	pick := func(i int) obs.Pt { return pool[base.name][(i+rng.Intn(4))%len(pool[base.name])] }
+	var embeds []string
+	if row.PreKind == "reuse" {
+		embeds = c17JSONEmbeds
+		if row.Door == "ECPoint.GobDecode" {
+			embeds = c17GobEmbeds
+		}
+	}
 	for i := 0; i < n; i++ {
 		var p obs.Pt
+		var u obs.Pt // the intact point the pair is built from
 		variant := ""
-		// the intact point the pair is built from
+		pair := c17XY{}
+		form := 0
 		under := func(i int) (obs.Pt, string) {
 			switch {
 			case i%4 == 0:
@@ -440,30 +847,40 @@ func c17BuildCases(row c17Row, n int, rng *rand.Rand, pool map[string][]obs.Pt) 
 			}
 			return pick(i), "random"
 		}
+		// one pair is enough for the classes that have a single member, except where the instance number also selects
+		// the list position (UnFlattenECPoints) or the place of the re-used target
+		single := i > 0 && row.Door != "crypto.UnFlattenECPoints" && i >= len(embeds)
 		switch row.Class {
 		case "generator":
 			p, variant = base.g.Gen(), "G"
-			if i > 0 && row.Door != "crypto.UnFlattenECPoints" {
-				continue // one pair only; the list door varies the position
+			u = p
+			if single {
+				continue
 			}
 		case "random":
 			p, variant = pick(i), "k*G"
+			u = p
 		case "identity":
 			if base.tors != nil {
 				p, variant = base.g.Identity(), "(0,1)"
+				u = p
 			} else {
 				p, variant = obs.Pt{X: big.NewInt(0), Y: big.NewInt(0)}, "(0,0) stand-in"
+				u = base.g.Gen()
 			}
-			if i > 0 && row.Door != "crypto.UnFlattenECPoints" {
+			if single {
 				continue
 			}
 		case "torsion":
 			p, variant = base.tors[i%8], fmt.Sprintf("T%d", i%8)
+			u = p
 		case "mixed":
 			t := 1 + i%7
 			p, variant = base.g.Add(pick(i), base.tors[t]), fmt.Sprintf("k*B+T%d", t)
+			u = p
 		case "perturbed_x", "perturbed_y":
-			u, uv := under(i)
+			var uv string
+			u, uv = under(i)
 			d := big.NewInt(int64(1 - 2*(i%2)))
 			p = obs.Pt{X: new(big.Int).Set(u.X), Y: new(big.Int).Set(u.Y)}
 			if row.Class == "perturbed_x" {
@@ -473,10 +890,37 @@ func c17BuildCases(row c17Row, n int, rng *rand.Rand, pool map[string][]obs.Pt) 
 			}
 			variant = fmt.Sprintf("%s, coordinate %+d", uv, d.Int64())
 		case "swapped":
-			u, uv := under(i)
+			var uv string
+			u, uv = under(i)
 			p, variant = obs.Pt{X: u.Y, Y: u.X}, uv+" swapped"
+		case "absent":
+			var uv string
+			u, uv = under(i)
+			which := i % 3 // x, y, both missing
+			form = (i / 3) % 3
+			pair = c17FromPt(u)
+			if which == 0 || which == 2 {
+				pair.X = ""
+			}
+			if which == 1 || which == 2 {
+				pair.Y = ""
+			}
+			variant = fmt.Sprintf("%s, %s missing", uv, []string{"x", "y", "x and y"}[which])
+			if strings.HasPrefix(row.Door, "ECPoint.UnmarshalJSON") {
+				spelt := "null"
+				switch {
+				case form == 1 && which == 1:
+					spelt = "Coords has one element"
+				case form == 1 && which == 2:
+					spelt = "Coords is empty"
+				case form == 2 && which == 2:
+					spelt = "no Coords member"
+				}
+				variant += " (" + spelt + ")"
+			}
 		case "ge_p_alias", "ge_p_topbit", "ge_p_overlong":
-			u, uv := under(i)
+			var uv string
+			u, uv = under(i)
 			which := i % 3 // x, y, both
 			if row.Class == "ge_p_alias" && i%2 == 1 {
 				// points with a coordinate so small that c + p keeps the byte length of the field
@@ -514,7 +958,10 @@ func c17BuildCases(row c17Row, n int, rng *rand.Rand, pool map[string][]obs.Pt) 
 		default:
 			continue
 		}
-		dc := &c17DoorCase{Row: row, Variant: variant, Pair: c17FromPt(p)}
+		if row.Class != "absent" {
+			pair = c17FromPt(p)
+		}
+		dc := &c17DoorCase{Row: row, Variant: variant, Pair: pair, Form: form}
 		if row.Door == "crypto.UnFlattenECPoints" {
 			ln := 1 + i%4
 			dc.Pos = (i / 4) % ln
@@ -527,6 +974,41 @@ func c17BuildCases(row c17Row, n int, rng *rand.Rand, pool map[string][]obs.Pt) 
 				} else {
 					dc.List = append(dc.List, c17FromPt(pool[stated.name][(i+j)%len(pool[stated.name])]))
 				}
+			}
+		}
+		switch row.PreKind {
+		case "seen":
+			if row.PreHow == "intact_point_own_curve" || row.PreHow == "intact_point_earlier_in_the_list" {
+				v := c17FromPt(u)
+				dc.Prev = &v
+			}
+			if row.PreHow == "intact_point_earlier_in_the_list" {
+				// the intact point directly before the pair (it is a point of the stated curve iff base = stated; otherwise
+				// the list is refused for two reasons, which is what the model expects anyway)
+				l := append([]c17XY{}, dc.List[:dc.Pos]...)
+				l = append(l, *dc.Prev)
+				dc.List = append(l, dc.List[dc.Pos:]...)
+				dc.Pos++
+			}
+		case "reuse":
+			dc.Embed = embeds[i%len(embeds)]
+			b := c17Get(row.PreCurve)
+			if b == nil {
+				continue
+			}
+			switch row.PreHow {
+			case "setcurve":
+			case "failed_json":
+				q := pool[b.name][(i+3)%len(pool[b.name])]
+				v := c17FromPt(obs.Pt{X: new(big.Int).Mod(new(big.Int).Add(q.X, big.NewInt(1)), b.p), Y: q.Y})
+				dc.Prev = &v
+			default:
+				q := b.g.Gen()
+				if i%3 != 0 {
+					q = pool[b.name][(i+5)%len(pool[b.name])]
+				}
+				v := c17FromPt(q)
+				dc.Prev = &v
 			}
 		}
 		out = append(out, dc)
@@ -1068,7 +1550,7 @@ func C17(ctx *core.Ctx) error {
 	}
 	run(func() {
 		doorRes = tlc.Run(tlc.Options{Module: "PointDoors", Workers: 1, Heap: "1g", Timeout: 10 * time.Minute,
-			Cfg: "SPECIFICATION Spec\nINVARIANTS TypeOK NothingOffCurveGetsIn IntactPointsGetIn SmallOrderPointsGetIn RoundTrip EmitRow\nCHECK_DEADLOCK FALSE\n"})
+			Cfg: "SPECIFICATION Spec\nINVARIANTS TypeOK NothingOffCurveGetsIn IntactPointsGetIn HistoryIndependent SmallOrderPointsGetIn RoundTrip EmitRow\nCHECK_DEADLOCK FALSE\n"})
 	})
 	for i := range gens {
 		i := i
@@ -1239,8 +1721,12 @@ func C17(ctx *core.Ctx) error {
 			rows = append(rows, r)
 		}
 	}
-	if len(rows) < 500 {
-		return core.Inconcl("door catalogue has only %d rows", len(rows))
+	preRows := map[string]int{}
+	for _, r := range rows {
+		preRows[r.PreKind]++
+	}
+	if len(rows) < 3000 || preRows["fresh"] < 500 || preRows["seen"] < 1000 || preRows["reuse"] < 1000 {
+		return core.Inconcl("door catalogue has only %d rows (%v)", len(rows), preRows)
 	}
 	sort.Slice(rows, func(i, j int) bool {
 		a, b := rows[i], rows[j]
@@ -1258,6 +1744,9 @@ func C17(ctx *core.Ctx) error {
 	offDoors := map[string]bool{}
 	drift := map[string]bool{}
 	doorCases, doorPanics := 0, 0
+	preCases := map[string]int{}
+	var doorInconcl error
+	reusedSeen := map[string]int{}
 	for _, row := range rows {
 		for _, dc := range c17BuildCases(row, perRow, rng, pool) {
 			o := c17DoorEval(dc)
@@ -1270,7 +1759,19 @@ func C17(ctx *core.Ctx) error {
 				verdict = "accepted"
 			}
 			doorStats[row.Expect+"->"+verdict]++
-			cov.Case(fmt.Sprintf("door|%s|%s|%s|%s|%s|%s|%d|%d", row.Door, row.Global, row.Stated, row.Base, row.Class, dc.Variant, len(dc.List), dc.Pos), true)
+			pre := row.PreKind
+			if pre != "fresh" {
+				pre += ":" + row.PreHow
+			}
+			if row.PreKind == "reuse" {
+				pre += ":" + dc.Embed
+			}
+			preCases[pre]++
+			if o.Reused != "" {
+				reusedSeen[row.Door+" | "+dc.Embed+" | decoded into the prepared object: "+o.Reused]++
+			}
+			cov.Case(fmt.Sprintf("door|%s|%s|%s|%s|%s|%s|%d|%d|%s|%s|%s|%s", row.Door, row.Global, row.Stated, row.Base, row.Class, dc.Variant, len(dc.List), dc.Pos,
+				row.PreKind, row.PreHow, row.PreCurve, dc.Embed), true)
 			if o.Drift != "" {
 				drift[o.Drift] = true
 			}
@@ -1283,18 +1784,41 @@ func C17(ctx *core.Ctx) error {
 					offAccepted[fmt.Sprintf("%s | %s | %s | %s", c17DoorFamily(row.Door), row.Stated, row.Class, how)]++
 					offDoors[row.Door+" | "+row.Stated] = true
 				}
-				if err := c17Report(ctx, o.Finding, c17Scenario{Kind: "door", Door: dc}); err != nil {
-					return err
+				if err := c17Report(ctx, o.Finding, c17Scenario{Kind: "door", Door: dc}); err != nil && doorInconcl == nil {
+					// machinery trouble in one case: the table is finished first; it decides the run only if the real doors
+					// have not contradicted the property anywhere (a changed library can derail the preparation of a history)
+					doorInconcl = err
 				}
 			}
 			if doorCases%97 == 1 {
 				cov.Sample(map[string]any{"kind": "door", "door": row.Door, "stated": row.Stated, "default_curve": row.Global, "class": row.Base + "/" + row.Class,
-					"variant": dc.Variant, "x": core.Short(dc.Pair.X, 40), "y": core.Short(dc.Pair.Y, 40), "model_expects": row.Expect, "library": verdict}, 12)
+					"pre_state": strings.TrimRight(row.PreKind+":"+row.PreHow+":"+row.PreCurve+":"+dc.Embed, ":-"),
+					"variant":   dc.Variant, "x": core.Short(dc.Pair.X, 40), "y": core.Short(dc.Pair.Y, 40), "model_expects": row.Expect, "library": verdict}, 12)
 			}
 		}
 	}
 	c17SetGlobal(secName)
 	lap("door_table")
+	if doorInconcl == nil {
+		// the binding of the re-use rows is real only if encoding/json and encoding/gob did decode into the prepared objects
+		for _, door := range []string{"ECPoint.UnmarshalJSON", "ECPoint.UnmarshalJSON(no Curve member)", "ECPoint.GobDecode"} {
+			embeds := c17JSONEmbeds
+			if door == "ECPoint.GobDecode" {
+				embeds = c17GobEmbeds
+			}
+			for _, e := range embeds {
+				if reusedSeen[door+" | "+e+" | decoded into the prepared object: yes"] == 0 || reusedSeen[door+" | "+e+" | decoded into the prepared object: no"] > 0 {
+					doorInconcl = core.Inconcl("C17 machinery: %s with the target as %q did not (always) decode into the prepared object: %v", door, e, reusedSeen)
+				}
+			}
+		}
+	}
+	if doorInconcl != nil {
+		if len(ctx.Violations()) == 0 {
+			return doorInconcl
+		}
+		ctx.Note("machinery trouble in the door table (not a verdict): %v", doorInconcl)
+	}
 	for d := range drift {
 		ctx.Note("drift: %s", d)
 	}
@@ -1433,6 +1957,9 @@ func C17(ctx *core.Ctx) error {
 	cov.Set("simulation_states_generated", genStates)
 	cov.Set("door_catalogue_rows", len(rows))
 	cov.Set("door_cases", doorCases)
+	cov.Set("door_catalogue_rows_by_pre_state", preRows)
+	cov.Set("door_cases_by_pre_state", preCases)
+	cov.Set("accepted_decodes_into_a_used_target", reusedSeen)
 	cov.Set("door_outcomes_model_to_library", doorStats)
 	cov.Set("door_panics_recovered_unjudged", doorPanics)
 	cov.Set("off_curve_pairs_accepted", offAccepted)
